@@ -54,3 +54,41 @@ Definition erase (s : sparam) : N * pkind * bool := (s_name s, s_kind s, s_defau
 
 Definition ret_from_def (r : option aexpr) : tval := match r with Some e => route_visitor e | None => TAny end.
 Definition ret_from_runtime (r : option aexpr) : tval := match r with Some e => route_runtime e | None => TAny end.
+
+(* ---- the owning class of an unannotated `self` -------------------------------- *)
+(* The def route takes it from the enclosing ClassDef.  The runtime route
+   (_get_type_for_parameter) walks function.__qualname__ = Outer.Inner.method from the
+   module: every component is looked up on the object found in the previous step
+   (`self_walk_on_previous`, generated). *)
+Inductive cls := Cls (name : N) (nested : list cls).
+Definition cname (c : cls) : N := match c with Cls n _ => n end.
+Definition cnested (c : cls) : list cls := match c with Cls _ l => l end.
+
+Fixpoint find_cls (n : N) (l : list cls) : option cls :=
+  match l with
+  | [] => None
+  | c :: r => if N.eqb (cname c) n then Some c else find_cls n r
+  end.
+
+(* walk on_previous module here path: `here` = the attributes of the object found so far *)
+Fixpoint walk_from (on_previous : bool) (module here : list cls) (path : list N) (found : option cls) : option cls :=
+  match path with
+  | [] => found
+  | n :: r =>
+      match find_cls n (if on_previous then here else module) with
+      | None => None
+      | Some c => walk_from on_previous module (cnested c) r (Some c)
+      end
+  end.
+
+Definition owner_from_qualname (module : list cls) (path : list N) : option cls :=
+  walk_from self_walk_on_previous module module path None.
+Definition owner_from_qualname_on_module (module : list cls) (path : list N) : option cls :=
+  walk_from false module module path None.      (* every component looked up on the module *)
+
+(* a class nested in a class nested in ... : N0 containing N1 containing ... *)
+Fixpoint chain (names : list N) : list cls :=
+  match names with
+  | [] => []
+  | n :: r => [Cls n (chain r)]
+  end.
